@@ -261,6 +261,27 @@ def mutate_state(r: random.Random, st, pool):
     return st
 
 
+def root_identity_change(r: random.Random, s0, s1):
+    """Root entries for (ref, new) such that the root's inode differs and one of them also names a directory inside the
+    other snapshot (where possible)."""
+    ROOT = Ent(1000, 0, True, 0, 0)
+    d0 = [e for e in s0.values() if e.isdir and e.dev == 0]
+    d1 = [e for e in s1.values() if e.isdir and e.dev == 0]
+    mode = r.choice(["nest", "unnest", "both", "fresh"])
+    if mode == "nest" and d1:
+        # old root now lives below the new root
+        e = r.choice(d1)
+        return Ent(e.ino, 0, True, 0, 0), Ent(2000, 0, True, 0, 0)
+    if mode == "unnest" and d0:
+        e = r.choice(d0)
+        return ROOT, Ent(e.ino, 0, True, 0, 0)
+    if mode == "both" and d0 and d1:
+        e0, e1 = r.choice(d0), r.choice(d1)
+        if e0.ino != e1.ino:
+            return Ent(e1.ino, 0, True, 0, 0), Ent(e0.ino, 0, True, 0, 0)
+    return ROOT, Ent(2000, 0, True, 1, 0)
+
+
 def run_invivo(b: Batch, seed, n):
     """Postcondition wrapper on DirectorySnapshotDiff.__init__: every diff the real PollingEmitter builds while hostile
     histories run on the real disk is judged by the same laws (the class itself is patched, so references bound earlier
@@ -348,7 +369,13 @@ def run_batch(spec):
             s0 = random_state(r, pool, devs=devs)
             s1 = mutate_state(r, s0, pool) if r.random() < 0.8 else random_state(r, pool, devs=devs)
             rec = r.random() < 0.7
-            judge_pair(b, s0, s1, rec, r.random() < 0.3, tag=(n % 500 == 0))
+            root0 = root1 = None
+            if r.random() < 0.15:
+                # the root path itself changes identity between the snapshots while its old/new inode stays inside the
+                # tree (mv root tmp; mkdir root; mv tmp root/sub - and the inverse)
+                root0, root1 = root_identity_change(r, s0, s1)
+                b.count("root_identity_pairs")
+            judge_pair(b, s0, s1, rec, r.random() < 0.3, tag=(n % 500 == 0), root0=root0, root1=root1)
             if n % 10 == 0:
                 judge_device(b, s0, rec)
                 judge_entrypoints(b, s0, s1, rec)
@@ -357,7 +384,8 @@ def run_batch(spec):
     elif kind == "pair":
         s0 = {k: Ent(*v) for k, v in spec["s0"]}
         s1 = {k: Ent(*v) for k, v in spec["s1"]}
-        judge_pair(b, s0, s1, spec["recursive"], spec["bytes"], tag=True)
+        ro = [Ent(*x) if x else None for x in (spec.get("root0"), spec.get("root1"))]
+        judge_pair(b, s0, s1, spec["recursive"], spec["bytes"], tag=True, root0=ro[0], root1=ro[1])
     elif kind == "entry":
         judge_entrypoints(b, {k: Ent(*v) for k, v in spec["s0"]}, {k: Ent(*v) for k, v in spec["s1"]}, spec["recursive"])
     elif kind == "device":
